@@ -360,3 +360,18 @@ def chaincmp(a, b):
     if a == b == 1:
         r = r + 2
     return r
+
+
+def boom(a, b):
+    x = a + 1
+    y = b * 2
+    if b > 0:
+        raise ValueError(x)
+    return x
+
+
+def deepboom(a, b):
+    u = inc(a)
+    w = b + 1
+    v = boom(u, w)
+    return v + w
